@@ -24,7 +24,7 @@ def sh(cmd, cwd=None, timeout=1800, e=env):
 patch = os.path.join(sdir, f"patch{idx}.diff")
 demo = os.path.join(sdir, f"demo{idx}")
 out = os.path.join("/verif/seeded", f"{pid}-{int(idx) + off}")
-meta = dict(property=pid, tags=tags, source=f"independent sub-agent given only the property text and a scratch worktree", index=int(idx) + off, round=(2 if off else 1))
+meta = dict(property=pid, tags=tags, source=f"independent sub-agent given only the property text and a scratch worktree", index=int(idx) + off, round=(off // 2 + 1))
 sh("git checkout -q -- . && git clean -fdq", cwd=wt)
 rc, o = sh(f"git apply --check {patch}", cwd=wt)
 if rc != 0:
